@@ -37,15 +37,24 @@ def mypy_tree(args):
         r = subprocess.run(["/venv/bin/mypy", str(g.out), "--strict", "--no-incremental", "--cache-dir=/dev/null", "--show-error-codes", "--no-error-summary"],
                            capture_output=True, text=True, cwd=str(g.root), env=env, timeout=600)
         errs = [l for l in r.stdout.splitlines() if ": error:" in l]
-        ctx = {}
+        ctx, func = {}, {}
+        import ast as _ast
         for l in errs:
             try:
                 f, ln = l.split(":")[0], int(l.split(":")[1])
-                src = (g.root / f).read_text().splitlines()
+                text = (g.root / f).read_text()
+                src = text.splitlines()
                 ctx[l] = src[ln - 1].strip()[:200]
+                # innermost enclosing function of the reported line (None: module / class level, e.g. an attribute declaration)
+                best = None
+                for n in _ast.walk(_ast.parse(text)):
+                    if isinstance(n, (_ast.FunctionDef, _ast.AsyncFunctionDef)) and n.lineno <= ln <= (n.end_lineno or n.lineno):
+                        if best is None or n.lineno >= best.lineno:
+                            best = n
+                func[l] = best.name if best else None
             except Exception:
                 pass
-        return json.loads(json.dumps({"label": label, "rc": r.returncode, "errors": errs, "context": ctx, "doc": doc, "cfg": cfg, "stderr": r.stderr[-300:],
+        return json.loads(json.dumps({"label": label, "rc": r.returncode, "errors": errs, "context": ctx, "func": func, "doc": doc, "cfg": cfg, "stderr": r.stderr[-300:],
                                       "overlap_modules": overlap_modules, "rawfb": rawfb}, default=str))
 
 
@@ -190,7 +199,10 @@ def run(run, tier, replay=None):
                 if run.known_finding("multipart_none_member_first", f"tree '{m['label']}': {e[:200]} | {src}"):
                     continue
             modfile = e.split(":")[0]
-            if "/models/" in modfile and modfile.split("/models/")[1][:-3] in (m.get("overlap_modules") or []):
+            fn_ = (m.get("func") or {}).get(e)
+            in_codec = fn_ is not None and (fn_ in ("to_dict", "from_dict", "to_multipart") or fn_.startswith("_parse_"))
+            # only errors INSIDE the decode / encode code of such a model belong to the finding (a class-level declaration, e.g. a default, does not)
+            if "/models/" in modfile and modfile.split("/models/")[1][:-3] in (m.get("overlap_modules") or []) and in_codec:
                 if run.known_finding("mypy_union_overlap", f"tree '{m['label']}': {e[:200]} | {src}"):
                     continue
             if "[syntax]" in e and any(modfile.endswith(x + ".py") for x in (m.get("rawfb") or [])):
